@@ -19,32 +19,91 @@ use trust_runtime::RetainSnapshot;
 
 use super::script::{source_for, Op, Script};
 
-/// Bound for everything the property calls "always works / never blocks" (normal: < 100 ms).
-pub const LIVENESS_BOUND: StdDuration = StdDuration::from_secs(10);
+/// Last-resort bound for a thread that makes no observable progress at all (normal: < 100 ms).
+/// It is counted in controller sleep ticks of >= 2 ms each *and* in wall time, so that a
+/// stalled or time-warped machine (VM pause, clock jump) cannot exhaust it by itself.
+pub const LAST_RESORT: StdDuration = StdDuration::from_secs(120);
+pub const LAST_RESORT_TICKS: u64 = 60_000;
+/// Progress criterion: the loop drains all commands and looks at the stop flag once per
+/// iteration, so after pause()/resume()/stop() returned at most the iteration in progress and
+/// one more may pass before the command shows. This many further iterations (or cycle starts)
+/// without effect is a violation independent of machine speed.
+pub const PROGRESS_SLACK: u64 = 50;
+
+/// Polling helper of the controller: yields first, then sleeps (so that the controller does not
+/// compete with the resource threads for the CPU), counting its long sleeps as ticks.
+struct Waiter {
+    polls: u32,
+    ticks: u64,
+    t0: Instant,
+}
+
+impl Waiter {
+    fn new() -> Waiter {
+        Waiter { polls: 0, ticks: 0, t0: Instant::now() }
+    }
+    fn pause(&mut self) {
+        self.polls = self.polls.saturating_add(1);
+        if self.polls < 64 {
+            std::thread::yield_now();
+        } else if self.polls < 256 {
+            std::thread::sleep(StdDuration::from_micros(100));
+        } else {
+            std::thread::sleep(StdDuration::from_millis(2));
+            self.ticks += 1;
+        }
+    }
+    /// bound of a helper wait (giving up is silent: nothing is asserted)
+    fn helper_expired(&self, ms: u64) -> bool {
+        self.t0.elapsed() > StdDuration::from_millis(ms)
+    }
+    fn last_resort(&self) -> bool {
+        self.ticks >= LAST_RESORT_TICKS && self.t0.elapsed() >= LAST_RESORT
+    }
+}
 
 #[derive(Clone, Debug)]
-pub enum AnyClock {
+pub enum Inner {
     Std(StdClock),
     Manual(ManualClock),
 }
 
+/// The clock handed to a resource: delegates to the real clock and counts `now()` calls.
+/// The resource loop calls `now()` exactly once per iteration (paused or not), so `iters`
+/// is the number of loop iterations seen from outside. The controller never calls `now()`.
+#[derive(Clone, Debug)]
+pub struct AnyClock {
+    pub inner: Inner,
+    pub iters: Arc<AtomicU64>,
+}
+
+impl AnyClock {
+    fn manual(&self) -> Option<&ManualClock> {
+        match &self.inner {
+            Inner::Manual(c) => Some(c),
+            Inner::Std(_) => None,
+        }
+    }
+}
+
 impl Clock for AnyClock {
     fn now(&self) -> Duration {
-        match self {
-            AnyClock::Std(c) => c.now(),
-            AnyClock::Manual(c) => c.now(),
+        self.iters.fetch_add(1, SeqCst);
+        match &self.inner {
+            Inner::Std(c) => c.now(),
+            Inner::Manual(c) => c.now(),
         }
     }
     fn sleep_until(&self, deadline: Duration) {
-        match self {
-            AnyClock::Std(c) => c.sleep_until(deadline),
-            AnyClock::Manual(c) => c.sleep_until(deadline),
+        match &self.inner {
+            Inner::Std(c) => c.sleep_until(deadline),
+            Inner::Manual(c) => c.sleep_until(deadline),
         }
     }
     fn wake(&self) {
-        match self {
-            AnyClock::Std(c) => c.wake(),
-            AnyClock::Manual(c) => c.wake(),
+        match &self.inner {
+            Inner::Std(c) => c.wake(),
+            Inner::Manual(c) => c.wake(),
         }
     }
 }
@@ -142,6 +201,7 @@ pub struct RepStats {
     pub faulted_final: bool,
     pub cycles: u64,
     pub samples: u32,
+    pub pause_unobserved: bool,
 }
 
 struct Live {
@@ -156,7 +216,11 @@ struct Live {
     /// Some((started, op index)) = state Paused was observed while the last command sent
     /// was pause: no cycle may start until resume() is called
     window: Option<(u64, usize)>,
-    resume_mark: Option<u64>,
+    /// (cycles started, loop iterations) right after the last pause() / resume() returned
+    pause_ref: Option<(u64, u64)>,
+    resume_ref: Option<(u64, u64)>,
+    /// loop iterations right after stop() returned
+    stop_ref: Option<u64>,
     stores_at_stopped: Option<u64>,
     f_first: u64,
     f_last: u64,
@@ -171,7 +235,6 @@ struct Rig<'a> {
     gate_open: bool,
     join_tx: mpsc::Sender<(usize, bool)>,
     join_rx: mpsc::Receiver<(usize, bool)>,
-    last_stop: Instant,
     stats: RepStats,
     last_counter: Vec<i64>,
     op_idx: usize,
@@ -216,10 +279,13 @@ impl<'a> Rig<'a> {
                     return Err(RepEnd::Infra(format!("load_retain_store: {e:?}")));
                 }
             }
-            let clock = match s.clock {
-                0 => AnyClock::Std(StdClock::new()),
-                1 => AnyClock::Manual(ManualClock::new()),
-                _ => AnyClock::Manual(shared_clock.clone()),
+            let clock = AnyClock {
+                inner: match s.clock {
+                    0 => Inner::Std(StdClock::new()),
+                    1 => Inner::Manual(ManualClock::new()),
+                    _ => Inner::Manual(shared_clock.clone()),
+                },
+                iters: Arc::new(AtomicU64::new(0)),
             };
             let mut runner = ResourceRunner::new(rt, clock.clone(), Duration::from_nanos(s.interval_ns));
             if res.gated {
@@ -255,7 +321,9 @@ impl<'a> Rig<'a> {
                 last_cmd: 0,
                 stop_called: false,
                 window: None,
-                resume_mark: None,
+                pause_ref: None,
+                resume_ref: None,
+                stop_ref: None,
                 stores_at_stopped: None,
                 f_first: 0,
                 f_last: 0,
@@ -270,7 +338,6 @@ impl<'a> Rig<'a> {
             gate_open: false,
             join_tx,
             join_rx,
-            last_stop: Instant::now(),
             stats: RepStats::default(),
             last_counter: s.counters.clone(),
             op_idx: 0,
@@ -299,18 +366,18 @@ impl<'a> Rig<'a> {
         let step = Duration::from_nanos(self.s.interval_ns.max(1_000_000));
         match (self.s.clock, only) {
             (2, _) => {
-                if let AnyClock::Manual(c) = &self.live[0].clock {
+                if let Some(c) = self.live[0].clock.manual() {
                     c.advance(step);
                 }
             }
             (_, Some(i)) => {
-                if let AnyClock::Manual(c) = &self.live[i].clock {
+                if let Some(c) = self.live[i].clock.manual() {
                     c.advance(step);
                 }
             }
             (_, None) => {
                 for l in &self.live {
-                    if let AnyClock::Manual(c) = &l.clock {
+                    if let Some(c) = l.clock.manual() {
                         c.advance(step);
                     }
                 }
@@ -335,6 +402,53 @@ impl<'a> Rig<'a> {
                     ));
                 }
             }
+            // Progress criteria (independent of machine speed). Read the counters first and
+            // the state last: a state that is still "wrong" after the counters moved that far
+            // cannot be a stale read.
+            if l.stop_called {
+                if let (Some(i0), None) = (l.stop_ref, l.joined) {
+                    let i1 = l.clock.iters.load(SeqCst);
+                    if i1 > i0 + PROGRESS_SLACK {
+                        return err_v(format!(
+                            "resource {i} kept looping after stop() returned: {} further loop iterations (state {:?}, op {op_idx}); the loop looks at the stop flag once per iteration",
+                            i1 - i0,
+                            l.ctl.state()
+                        ));
+                    }
+                }
+                continue;
+            }
+            if let (1, Some((s0, i0))) = (l.last_cmd, l.pause_ref) {
+                let i1 = l.clock.iters.load(SeqCst);
+                let s1 = l.cell.started.load(SeqCst);
+                let st = l.ctl.state();
+                let live = !matches!(st, ResourceState::Faulted | ResourceState::Stopped);
+                if live && s1 > s0 + PROGRESS_SLACK {
+                    return err_v(format!(
+                        "pause() on resource {i} had no effect: {} further cycles started after pause() returned (state {st:?}, op {op_idx})",
+                        s1 - s0
+                    ));
+                }
+                if live && st != ResourceState::Paused && i1 > i0 + PROGRESS_SLACK {
+                    return err_v(format!(
+                        "pause() on resource {i} had no effect: {} further loop iterations after pause() returned and the state is {st:?}, not Paused (op {op_idx})",
+                        i1 - i0
+                    ));
+                }
+            }
+            if let (2, Some((s0, i0))) = (l.last_cmd, l.resume_ref) {
+                let gate_ok = !self.s.resources[i].gated || self.gate_open;
+                let i1 = l.clock.iters.load(SeqCst);
+                let s1 = l.cell.started.load(SeqCst);
+                let st = l.ctl.state();
+                let live = !matches!(st, ResourceState::Faulted | ResourceState::Stopped);
+                if gate_ok && live && s1 == s0 && i1 > i0 + PROGRESS_SLACK {
+                    return err_v(format!(
+                        "resume() on resource {i} had no effect: {} further loop iterations after resume() returned but still {s0} cycles started (state {st:?}, op {op_idx})",
+                        i1 - i0
+                    ));
+                }
+            }
         }
         Ok(())
     }
@@ -352,8 +466,8 @@ impl<'a> Rig<'a> {
             _ => l.ctl.stop(),
         }
         let fa = l.cell.finished.load(SeqCst);
+        l.stop_ref = Some(l.clock.iters.load(SeqCst));
         l.stop_called = true;
-        self.last_stop = Instant::now();
         if fa < sb && l.ctl.state() != ResourceState::Faulted {
             self.stats.inflight_stop = true;
         }
@@ -444,7 +558,8 @@ impl<'a> Rig<'a> {
                     let _ = l.ctl.pause();
                     let fa = l.cell.finished.load(SeqCst);
                     l.last_cmd = 1;
-                    l.resume_mark = None;
+                    l.resume_ref = None;
+                    l.pause_ref = Some((l.cell.started.load(SeqCst), l.clock.iters.load(SeqCst)));
                     if fa < sb && l.ctl.state() != ResourceState::Faulted {
                         self.stats.inflight_pause = true;
                     }
@@ -456,9 +571,10 @@ impl<'a> Rig<'a> {
                     self.watch()?; // last look at the window before it closes
                     let l = &mut self.live[i];
                     l.window = None;
-                    l.resume_mark = Some(l.cell.started.load(SeqCst));
+                    l.pause_ref = None;
                     l.last_cmd = 2;
                     let _ = l.ctl.resume();
+                    l.resume_ref = Some((l.cell.started.load(SeqCst), l.clock.iters.load(SeqCst)));
                 }
             }
             Op::Stop { r, via_handle, poll } => self.do_stop(*r as usize, *via_handle, *poll),
@@ -467,19 +583,19 @@ impl<'a> Rig<'a> {
                 match (self.s.clock, r) {
                     (0, _) => {}
                     (1, Some(i)) => {
-                        if let AnyClock::Manual(c) = &self.live[*i as usize].clock {
+                        if let Some(c) = self.live[*i as usize].clock.manual() {
                             c.advance(d);
                         }
                     }
                     (1, None) => {
                         for l in &self.live {
-                            if let AnyClock::Manual(c) = &l.clock {
+                            if let Some(c) = l.clock.manual() {
                                 c.advance(d);
                             }
                         }
                     }
                     _ => {
-                        if let AnyClock::Manual(c) = &self.live[0].clock {
+                        if let Some(c) = self.live[0].clock.manual() {
                             c.advance(d);
                         }
                     }
@@ -506,65 +622,48 @@ impl<'a> Rig<'a> {
                 let i = *r as usize;
                 let l = &self.live[i];
                 if !l.stop_called && l.last_cmd == 1 && self.gate_passable(i) {
-                    let t0 = Instant::now();
+                    // helper wait: gives up silently (a thread starved at the shared lock may
+                    // take arbitrarily long to reach its next drain; watch() judges by progress)
+                    let mut w = Waiter::new();
                     loop {
                         self.watch()?;
                         if self.live[i].window.is_some() || self.terminal(i) {
                             break;
                         }
-                        if t0.elapsed() > LIVENESS_BOUND {
-                            return Err(RepEnd::Hang(format!(
-                                "pause() on resource {i} had no effect for {} s (state {:?}, op {})",
-                                LIVENESS_BOUND.as_secs(),
-                                self.live[i].ctl.state(),
-                                self.op_idx
-                            )));
+                        if w.helper_expired(2000) {
+                            self.stats.pause_unobserved = true;
+                            break;
                         }
-                        std::thread::yield_now();
+                        w.pause();
                     }
                 }
             }
             Op::AwaitCycles { r, n } => {
                 let i = *r as usize;
                 if self.can_progress(i) {
-                    let asserted = self.live[i].last_cmd == 2 && self.live[i].resume_mark.is_some();
-                    let mark = self.live[i].resume_mark.unwrap_or(0);
+                    let resumed_from = if self.live[i].last_cmd == 2 { self.live[i].resume_ref } else { None };
                     let target = self.live[i].cell.finished.load(SeqCst) + *n as u64;
-                    let bound = if asserted { LIVENESS_BOUND } else { StdDuration::from_millis(50) };
-                    let t0 = Instant::now();
+                    let bound_ms = if resumed_from.is_some() { 2000 } else { 50 };
+                    let mut w = Waiter::new();
                     loop {
-                        self.watch()?;
+                        self.watch()?; // carries the progress criterion for resume()
                         let l = &self.live[i];
-                        let resumed = !asserted || l.cell.started.load(SeqCst) > mark;
-                        if resumed && (asserted || l.cell.finished.load(SeqCst) >= target) {
-                            break;
-                        }
-                        if self.terminal(i) {
-                            break;
-                        }
-                        if t0.elapsed() > bound {
-                            if asserted {
-                                return Err(RepEnd::Hang(format!(
-                                    "resume() on resource {i} had no effect for {} s: still {mark} cycles started, state {:?} (op {})",
-                                    LIVENESS_BOUND.as_secs(),
-                                    self.live[i].ctl.state(),
-                                    self.op_idx
-                                )));
-                            }
+                        let done = match resumed_from {
+                            Some((s0, _)) => l.cell.started.load(SeqCst) > s0,
+                            None => l.cell.finished.load(SeqCst) >= target,
+                        };
+                        if done || self.terminal(i) || w.helper_expired(bound_ms) {
                             break;
                         }
                         self.drive(Some(i));
-                        std::thread::yield_now();
-                    }
-                    if asserted {
-                        self.live[i].resume_mark = None;
+                        w.pause();
                     }
                 }
             }
             Op::AwaitFault => {
                 if let Some(f) = self.s.fault_res() {
                     if self.can_progress(f) {
-                        let t0 = Instant::now();
+                        let mut w = Waiter::new();
                         let mut seen = false;
                         loop {
                             self.watch()?;
@@ -576,11 +675,11 @@ impl<'a> Rig<'a> {
                                 ResourceState::Stopped => break,
                                 _ => {}
                             }
-                            if t0.elapsed() > StdDuration::from_secs(2) {
+                            if w.helper_expired(2000) {
                                 break;
                             }
                             self.drive(None);
-                            std::thread::yield_now();
+                            w.pause();
                         }
                         if seen {
                             self.stats.fault_observed = true;
@@ -588,7 +687,7 @@ impl<'a> Rig<'a> {
                                 .filter(|j| *j != f && self.can_progress(*j))
                                 .map(|j| (j, self.live[j].cell.finished.load(SeqCst)))
                                 .collect();
-                            let t1 = Instant::now();
+                            let mut w = Waiter::new();
                             loop {
                                 self.watch()?;
                                 let blocked: Vec<usize> = others
@@ -604,15 +703,16 @@ impl<'a> Rig<'a> {
                                     }
                                     break;
                                 }
-                                if t1.elapsed() > LIVENESS_BOUND {
+                                if w.last_resort() {
                                     return Err(RepEnd::Hang(format!(
-                                        "after resource {f} faulted, resource(s) {blocked:?} completed no further cycle for {} s (op {})",
-                                        LIVENESS_BOUND.as_secs(),
+                                        "after resource {f} faulted, resource(s) {blocked:?} completed no further cycle for {} s / {} controller ticks (op {})",
+                                        LAST_RESORT.as_secs(),
+                                        w.ticks,
                                         self.op_idx
                                     )));
                                 }
                                 self.drive(None);
-                                std::thread::yield_now();
+                                w.pause();
                             }
                         }
                     }
@@ -636,8 +736,10 @@ impl<'a> Rig<'a> {
         Ok(())
     }
 
-    /// Stop whatever is still running and join every thread. Returns Err(Hang) when a join
-    /// did not return within the bound (after making the threads exit by other means).
+    /// Stop whatever is still running and join every thread. A thread that keeps looping after
+    /// stop() is a violation by progress; a thread that shows no progress at all is waited for
+    /// up to the last-resort bound (Hang: once = inconclusive, twice in a row = violation). In
+    /// both cases the threads are then made to exit by other means so nothing outlives the case.
     fn shutdown(&mut self) -> Result<(), RepEnd> {
         for l in self.live.iter_mut() {
             l.f_last = l.cell.finished.load(SeqCst);
@@ -647,54 +749,56 @@ impl<'a> Rig<'a> {
         for i in order {
             self.do_stop(i, self.s.final_via_handle, self.s.final_poll);
         }
-        let deadline = self.last_stop + LIVENESS_BOUND;
-        let mut hang = None;
-        if !self.collect_joins(deadline) {
-            let missing: Vec<usize> = (0..n).filter(|i| self.live[*i].joined.is_none()).collect();
-            let states: Vec<ResourceState> = missing.iter().map(|i| self.live[*i].ctl.state()).collect();
-            hang = Some(format!(
-                "stop() then join() did not return within {} s for resource(s) {missing:?} (states {states:?}; clock kind {}, interval {} ns, gate open: {})",
-                LIVENESS_BOUND.as_secs(),
-                self.s.clock,
-                self.s.interval_ns,
-                self.gate_open
-            ));
-            // make the threads exit by other means so that nothing outlives the case
-            if let Some(g) = self.gate.as_ref() {
-                g.open();
-            }
-            for l in &self.live {
-                if let AnyClock::Manual(c) = &l.clock {
-                    c.interrupt();
-                    c.advance(Duration::from_millis(1000));
-                }
-                let _ = l.ctl.resume();
-                l.ctl.stop();
-            }
-            if !self.collect_joins(Instant::now() + LIVENESS_BOUND) {
-                eprintln!("C20: resource threads cannot be made to exit; aborting the worker (the journal names the case)");
-                std::process::exit(101);
-            }
+        let problem = match self.collect_joins(true) {
+            Ok(()) => return Ok(()),
+            Err(p) => p,
+        };
+        // make the threads exit by other means
+        if let Some(g) = self.gate.as_ref() {
+            g.open();
         }
-        match hang {
-            Some(m) => Err(RepEnd::Hang(m)),
-            None => Ok(()),
+        for l in &self.live {
+            if let Some(c) = l.clock.manual() {
+                c.interrupt();
+                c.advance(Duration::from_millis(1000));
+            }
+            let _ = l.ctl.resume();
+            l.ctl.stop();
         }
+        if self.collect_joins(false).is_err() {
+            eprintln!("C20: resource threads cannot be made to exit; aborting the worker (the journal names the case)");
+            std::process::exit(101);
+        }
+        Err(problem)
     }
 
-    fn collect_joins(&mut self, deadline: Instant) -> bool {
+    /// Wait until every joiner reported. `judge` = apply the stop progress criterion.
+    fn collect_joins(&mut self, judge: bool) -> Result<(), RepEnd> {
+        let mut w = Waiter::new();
         loop {
+            while let Ok((i, ok)) = self.join_rx.try_recv() {
+                self.live[i].joined = Some(ok);
+            }
             if self.live.iter().all(|l| l.joined.is_some()) {
-                return true;
+                return Ok(());
             }
-            let now = Instant::now();
-            if now >= deadline {
-                return false;
+            if judge {
+                self.watch()?;
             }
-            match self.join_rx.recv_timeout(deadline - now) {
-                Ok((i, ok)) => self.live[i].joined = Some(ok),
-                Err(_) => return false,
+            if w.last_resort() {
+                let missing: Vec<usize> =
+                    (0..self.live.len()).filter(|i| self.live[*i].joined.is_none()).collect();
+                let states: Vec<ResourceState> = missing.iter().map(|i| self.live[*i].ctl.state()).collect();
+                return Err(RepEnd::Hang(format!(
+                    "stop() then join() did not return within {} s / {} controller ticks for resource(s) {missing:?}, which made no loop iteration either (states {states:?}; clock kind {}, interval {} ns, gate open: {})",
+                    LAST_RESORT.as_secs(),
+                    w.ticks,
+                    self.s.clock,
+                    self.s.interval_ns,
+                    self.gate_open
+                )));
             }
+            w.pause();
         }
     }
 
